@@ -582,12 +582,11 @@ retry:
         goto retry;
       }
 
-      if (!traits::compare_nontrivial_key(acc, key)) {
-        continue;
+      // in case of a mismatch (hash collision) we must move on to the next extension item
+      if (traits::compare_nontrivial_key(acc, key)) {
+        result = std::move(acc);
+        return true;
       }
-
-      result = std::move(acc);
-      return true;
     }
 
     // (27) - this acquire-load synchronizes-with the release-store (35)
